@@ -121,7 +121,7 @@ def judge_shuffle(ctx, label, N, clauses, G, pf, vp, cp, mech="shuffle"):
     if w is None:
         ctx.count("witness_missing")
     else:
-        flips, perm, cmap = list(w[0]), list(w[1]), [tuple(x) for x in w[2]]
+        flips, perm, cmap = list(w[0]), list(w[1]), [tuple(int(y) if isinstance(y, float) and y == int(y) else y for y in x) for x in w[2]]
         okw = (len(flips) == N and all(f in (1, -1) for f in flips) and sorted(perm) == list(range(1, N + 1))
                and sorted(o for o, _ in cmap) == list(range(M)) and sorted(n for _, n in cmap) == list(range(M)))
         if not okw:
@@ -419,6 +419,16 @@ def case_size_sweep(ctx, sizes, rseed):
             ctx.judged(("sweep", N, isinstance(pf, list), str(vp)[:8], str(cp)[:8]), nontrivial=M > 0, sample={"variables": N, "clauses": M})
 
 
+class _AbsOne:
+    """Not a number at all, but abs() of it is 1."""
+
+    def __abs__(self):
+        return 1
+
+    def __repr__(self):
+        return "<object whose abs() is 1>"
+
+
 def invalid_args(N, M):
     """(which, value, why)"""
     out = []
@@ -440,6 +450,11 @@ def invalid_args(N, M):
         out.append(("variables", [1, 2.5] + idp[2:], "non-integer image"))
         out.append(("variables", idp[:-1] + [None], "None image"))
         out.append(("flips", [1.5] + [1] * (N - 1), "non-integer flip"))
+    if N:
+        # numbers of absolute value one that are neither +1 nor -1, placed on a variable that may occur in a clause
+        for j, unit in enumerate((1j, -1j, complex(0.6, 0.8), _AbsOne())):
+            pos = (j * 3 + M) % N
+            out.append(("flips", [1] * pos + [unit] + [-1] * (N - pos - 1), "non-integer flip of absolute value one (%s)" % type(unit).__name__))
     if M >= 3:
         out.append(("clauses", [0, 1.5] + idc[2:], "non-integer position"))
     out.append(("clauses", idc + [M], "too long"))
@@ -471,6 +486,49 @@ def case_invalid(ctx, rseed, count):
             else:
                 ctx.count("explicit_invalid_rejected")
             ctx.judged(("invalid", N, M, which, why), nontrivial=True)
+        # flips that *equal* -1 / +1 without being integers (1.0, Fraction(-1), True): accepted or refused, but an
+        # accepted call must give the formula of the integer flips, made of integer literals
+        if N:
+            import fractions
+            for unit in (1.0, -1.0, fractions.Fraction(-1), True):
+                flips = [r.choice((-1, 1)) for _ in range(N)]
+                used = sorted({abs(l) for c in cls for l in c}) or [1]
+                pos = r.choice(used) - 1
+                flips[pos] = unit
+                st, G = ctx.call(Shuffle, F, polarity_flips=list(flips), variables_permutation="fixed", clauses_permutation="fixed")
+                label = "Shuffle(CNF(%d vars, %r), polarity_flips=%r)" % (N, cls, flips)
+                ctx.count("flips_equal_to_a_sign_but_not_integers")
+                if st == "exc":
+                    if not isinstance(G, (ValueError, TypeError)):
+                        ctx.violation("shuffle:non-integer-sign-raises-%s" % type(G).__name__, "%s raised %r" % (label, G))
+                    continue
+                odd = [l for c in G for l in c if type(l) is not int]
+                if odd:
+                    ctx.violation("shuffle:non-integer-literals", "%s was accepted and its result has the literal %r (%s)"
+                                  % (label, odd[0], type(odd[0]).__name__))
+                    continue
+                judge_shuffle(ctx, label, N, cls, G, [int(x) for x in flips], "fixed", "fixed")
+            # a variable permutation / clause permutation written with floats that equal the integers
+            perm = list(range(1, N + 1))
+            r.shuffle(perm)
+            cperm = list(range(M))
+            r.shuffle(cperm)
+            for vp, cp in (([float(v) if i % 2 == 0 else v for i, v in enumerate(perm)], "fixed"),
+                           ("fixed", [float(v) if i % 2 == 0 else v for i, v in enumerate(cperm)])):
+                st, G = ctx.call(Shuffle, F, polarity_flips="fixed", variables_permutation=vp, clauses_permutation=cp)
+                label = "Shuffle(CNF(%d vars, %r), variables_permutation=%r, clauses_permutation=%r)" % (N, cls, vp, cp)
+                ctx.count("flips_equal_to_a_sign_but_not_integers")
+                if st == "exc":
+                    if not isinstance(G, (ValueError, TypeError)):
+                        ctx.violation("shuffle:non-integer-position-raises-%s" % type(G).__name__, "%s raised %r" % (label, G))
+                    continue
+                odd = [l for c in G for l in c if type(l) is not int]
+                if odd:
+                    ctx.violation("shuffle:non-integer-literals", "%s was accepted and its result has the literal %r (%s)"
+                                  % (label, odd[0], type(odd[0]).__name__))
+                    continue
+                judge_shuffle(ctx, label, N, cls, G, "fixed", vp if vp == "fixed" else [int(v) for v in vp],
+                              cp if cp == "fixed" else [int(v) for v in cp])
 
 
 def dimacs_text(N, cls):
